@@ -20,7 +20,7 @@ import (
 	"golang.org/x/tools/go/ssa/ssautil"
 )
 
-const repoDir = "/repo"
+var repoDir = "/repo" // VERIF_REPO overrides (seeded-defect evaluation runs the checks against a scratch worktree)
 
 var verifDir = "/verif"
 
@@ -414,6 +414,9 @@ func main() {
 	}
 	if v := os.Getenv("VERIF_DIR"); v != "" {
 		verifDir = v
+	}
+	if v := os.Getenv("VERIF_REPO"); v != "" {
+		repoDir = v
 	}
 	switch os.Args[1] {
 	case "run":
